@@ -70,6 +70,23 @@ Theorem C39_redelivery_later :
 Proof. exact redelivery_later. Qed.
 Print Assumptions C39_redelivery_later.
 
+(** Which prior state a message kind requires to be processed at all (otherwise the dispatch
+    answers with an error before any handler runs). *)
+Theorem C39_dispatch_preconditions :
+  forall (S E : Type) (H : handlers S E) (st : mstate S) (m : msg) (ev : list E),
+    snd (process S E fixed H st m) = Done ev ->
+    match mkind m with
+    | KKeyBundle _ => True
+    | KAuth a => supported a = true
+    | KSpaceMembership sp ref =>
+        exists a, lookup ref (stored st) = Some (SAuth a) /\ supported a = true /\
+                  (memN sp (spaces st) = true \/ is_create a = true)
+    | KSpaceUpdate _ => False
+    | KApplication sp => memN sp (spaces st) = true
+    end.
+Proof. exact dispatch_preconditions. Qed.
+Print Assumptions C39_dispatch_preconditions.
+
 (** Errors (and, as found, panics) persist nothing. *)
 Theorem C39_errors_persist_nothing :
   forall (S E : Type) (H : handlers S E) (c : cfg) (st : mstate S) (m : msg),
